@@ -134,13 +134,19 @@ def _oracle_job(pp, job):
                 # asserted for grammars without ignorables only: with ignorables the literal reading is false (registered
                 # finding parse_all_vs_stringend_ignorables - the appended StringEnd / And do not know expr's ignorables);
                 # that region is left to the registered witness, which is replayed on every run
-                if uniform_ws and pall[0] in ("ok", "exc") and se[0] in ("ok", "exc") and (not has_ign or job.get("witness")):
+                # ... and for roots that pre-parse themselves: a root whose callPreparse is off (a repetition / Opt / Group
+                # ... over alternatives) starts at position 0, inside `expr + StringEnd()` it starts after the And's
+                # whitespace skip, and a non-skipping stop_on / lookahead then looks at a different character
+                # (registered finding parse_all_vs_stringend_start_position, witness replayed on every run)
+                if uniform_ws and pall[0] in ("ok", "exc") and se[0] in ("ok", "exc") and \
+                        ((not has_ign and root.callPreparse) or job.get("witness")):
                     # the statement equates *success*; tokens are compared with the plain parse above (an And skips
                     # leading whitespace where a root whose callPreparse is off - SkipTo over alternatives - keeps it
                     # in its skipped text, so the token lists may legitimately differ)
                     if (se[0] == "ok") != (pall[0] == "ok"):
                         rec("parse_all == (expr + StringEnd())", s, pall, se,
-                            sig="parse_all_vs_stringend_ignorables" if has_ign else None)
+                            sig="parse_all_vs_stringend_ignorables" if has_ign else
+                            ("parse_all_vs_stringend_start_position" if not root.callPreparse else None))
                 # --- scan_string ------------------------------------------------------------------------
                 full = _res(pp, lambda: [(t.as_list(), a, b) for t, a, b in root.scan_string(s)])
                 if full[0] == "ok":
@@ -286,6 +292,8 @@ def run(ctx):
                     "parse_all-vs-StringEnd clause is asserted for default-whitespace grammars without ignorables (registered "
                     "finding for ignorables: witness replayed); non-trivial = distinct (program,input)")
     run_oracle(ctx, "known-finding-witness", [WITNESS_F8])
+    run_oracle(ctx, "known-finding-witness", [dict(witness=True, root="root", inputs=[" x"], prog=[
+        ["x", "Literal", "x"], ["alt", "|", "x", "x"], ["st", "CharsNotIn", "b ,"], ["root", "ZeroOrMore", "alt", "st"]])])
     jobs = []
     for i in range(ctx.budget(2500, 20000)):
         rng = random.Random(f"C08-{ctx.seed}-corr-{i}")
